@@ -201,6 +201,16 @@ def correspondence(ctx):
     reqs.append("c05const")
     meta.append(("const", [K.G, K.Earth.mass, K.Earth.mu, K.Earth.r, K.Earth.J2], None, None))
     out.count(key="c05const", kind="constants")
+    # leo.sso(a=a, e=e) against the translated cosine (the formula of theorem j2_node_rate_eq_sso)
+    from beyond.utils.leo import sso
+    for _ in range(ctx.n(100, 2000)):
+        e = rng.uniform(0, 0.1)
+        a = rng.uniform(6.6e6, 8.0e6) / (1 - e)
+        with _quiet():
+            inc = float(sso(a=a, e=e))
+        reqs.append(" ".join(["c05sso", f2b(a), f2b(e)]))
+        meta.append(("sso", [math.cos(inc), TWO_PI / 365.256363004 / 86400], None, {"a": a, "e": e}))
+        out.count(key=reqs[-1], kind="sso")
     N = ctx.n(4000, 60000)
     for k in range(N):
         prop = "Kepler" if k % 2 == 0 else "J2"
@@ -237,6 +247,10 @@ def correspondence(ctx):
                 if not all(core.close(a, b, rtol=1e-15) for a, b in zip(impl, model)):
                     out.fail("c05-constants", "regenerated constants differ from beyond.constants", "c05const", observed=impl, expected=model)
                 out.sample({"request": req, "impl": impl, "model": model})
+                continue
+            if kind == "sso":
+                if not all(core.close(x, y, rtol=1e-12, atol=1e-15) for x, y in zip(impl, model)):
+                    out.fail("c05-sso", "cos(leo.sso(a, e)) differs from the translated formula", inp, observed=impl, expected=model)
                 continue
             date, frame, n, dt, conic = aux
             exp = to_cart(model, date, frame) if finite(model) else [float("nan")] * 6
